@@ -69,27 +69,28 @@ func (s *seriesIt) Next() bool {
 	return s.idx < len(s.samples)
 }
 
+// Seek advances the iterator forward to the first sample with a timestamp equal or greater than t
+// (chunkenc.Iterator): it never moves backwards, has no effect if the current sample already
+// qualifies, and returns false (leaving the iterator exhausted) if there is no such sample.
 func (s *seriesIt) Seek(t int64) bool {
-	l := 0
+	l := s.idx
+	if l < 0 {
+		l = 0
+	}
 	u := len(s.samples)
-	idx := int(0)
-	if t <= s.samples[0].TimestampMs {
-		s.idx = 0
+	if l < u && t <= s.samples[l].TimestampMs {
+		s.idx = l
 		return true
 	}
 	for u > l {
-		idx = (u + l) / 2
-		if s.samples[idx].TimestampMs == t {
-			l = idx
-			break
-		}
+		idx := (u + l) / 2
 		if s.samples[idx].TimestampMs < t {
 			l = idx + 1
 			continue
 		}
 		u = idx
 	}
-	s.idx = idx
+	s.idx = l
 	return s.idx < len(s.samples)
 }
 
